@@ -428,7 +428,13 @@ def rand_pcase(rng, focus=(), npairs=None):
         k = rng.choice([2, 2, 3])
         a1 = [U.rand_seq(rng, rng.choice([5, 6, 8, 10, 12]), "ACGT") for _ in range(k)]
         a2 = [U.rand_seq(rng, rng.choice([5, 6, 8, 10, 12]), "ACGT") for _ in range(k)]
-        base.adapters = tuple(("-a", "ad%d=%s" % (i, s)) for i, s in enumerate(a1))
+        par1 = [""] * k
+        if rng.random() < 0.25:
+            # the same R1 adapter at two ranks with different tolerances (a lenient and a strict copy, in either order): the ranks are
+            # still searched one by one, each with its own parameters
+            a1[1] = a1[0]
+            par1[0], par1[1] = rng.choice([(";e=0.2", ";e=0"), (";e=0", ";e=0.2"), (";e=0.25;o=4", ";e=0;o=4")])
+        base.adapters = tuple(("-a", "ad%d=%s%s" % (i, s, par1[i])) for i, s in enumerate(a1))
         p.adapters2 = tuple(("-A", "bd%d=%s" % (i, s)) for i, s in enumerate(a2))
         p.pair_adapters, base.times, base.revcomp, p.combinatorial = True, 1, False, False
         base.error_rate, base.overlap = rng.choice([None, 0.0, 0.2]), rng.choice([None, 3, 4])
